@@ -4,6 +4,9 @@ import UVerif.Driver.Quire
 import UVerif.Driver.Except
 import UVerif.Driver.Text
 
+import UVerif.Driver.F64
+import UVerif.Driver.DD
+
 namespace UVerif.Driver
 
 /-- family name ↦ handler. One line per family. -/
@@ -15,6 +18,15 @@ def lookupHandler (fam : String) : Option Handler :=
   | "thr" => some thrHandler
   | "exc" => some excHandler
   | "text" => some textHandler
+  | "f64" => some f64Handler
+  | "eft" => some eftHandler
+  | "eftc" => some eftcHandler
+  | "eftcf" => some eftcfHandler
+  | "dd" => some ddHandler
+  | "ddc" => some ddcHandler
+  | "qd" => some qdHandler
+  | "qdc" => some qdcHandler
+  | "ddconv" => some ddconvHandler
   | _ => none
 
 end UVerif.Driver
